@@ -143,7 +143,7 @@ def handle (op : String) (j : Json) : Option Json :=
           let pre := below preM
           let post := below (getObj ob "mps")
           -- (a mountpoint stacked by hand over another mountpoint's parent directory hides that
-          -- mount: repaired by 05db66c, `umount` must succeed there too)
+          -- mount: repaired by e546b99, `umount` must succeed there too)
           if pre.isEmpty then none
           else if cls == "ok" && !post.isEmpty then some "umount reported success but mounts remain below the build root"
           else if cls != "ok" then
